@@ -241,3 +241,54 @@ pub struct Reopenable<O>(MutRc<Option<O>>);
 impl<O> Reopenable<O> {
   pub fn reopen(&self, o: O) { *self.0.rc_deref_mut() = Some(o); }
 }
+
+// ---------------------------------------------------------------- C14
+use futures::channel::mpsc::UnboundedSender;
+pub struct SilentErrorSink<T, E> { sender: UnboundedSender<Result<T, E>>, last: Option<E> }
+impl<T, E> Observer<T, E> for SilentErrorSink<T, E> {
+  fn next(&mut self, value: T) { let _ = self.sender.unbounded_send(Ok(value)); }
+  fn error(mut self, err: E) { self.last = Some(err); }
+  fn complete(self) { self.sender.close_channel(); }
+  fn is_finished(&self) -> bool { self.sender.is_closed() }
+}
+use std::sync::atomic::{AtomicI8, Ordering};
+pub struct Status2 { flag: AtomicI8, waker: futures::task::AtomicWaker }
+pub struct CheckThenRegister(std::sync::Arc<Status2>);
+impl std::future::Future for CheckThenRegister {
+  type Output = ();
+  fn poll(self: std::pin::Pin<&mut Self>, cx: &mut std::task::Context<'_>) -> std::task::Poll<()> {
+    if self.0.flag.load(Ordering::Relaxed) != 0 {
+      std::task::Poll::Ready(())
+    } else {
+      self.0.waker.register(cx.waker());
+      std::task::Poll::Pending
+    }
+  }
+}
+pub struct RegisterThenCheck(std::sync::Arc<Status2>);
+impl std::future::Future for RegisterThenCheck {
+  type Output = ();
+  fn poll(self: std::pin::Pin<&mut Self>, cx: &mut std::task::Context<'_>) -> std::task::Poll<()> {
+    self.0.waker.register(cx.waker());
+    if self.0.flag.load(Ordering::Relaxed) != 0 {
+      std::task::Poll::Ready(())
+    } else {
+      std::task::Poll::Pending
+    }
+  }
+}
+pub struct WakeBeforeStore<O> { observer: O, status: std::sync::Arc<Status2> }
+impl<Item, Err, O: Observer<Item, Err>> Observer<Item, Err> for WakeBeforeStore<O> {
+  fn next(&mut self, value: Item) { self.observer.next(value) }
+  fn error(self, err: Err) {
+    self.observer.error(err);
+    self.status.flag.store(-1, Ordering::Relaxed);
+    self.status.waker.wake();
+  }
+  fn complete(self) {
+    self.observer.complete();
+    self.status.waker.wake();
+    self.status.flag.store(1, Ordering::Relaxed);
+  }
+  fn is_finished(&self) -> bool { self.observer.is_finished() }
+}
